@@ -11,10 +11,10 @@ from pv import core
 
 QUICK_DIRS = ["psyir/nodes", "psyir/transformations"]
 THOROUGH_DIRS = ["psyir", "domain", "nemo", "psyGen_test.py", "dynamo0p3_test.py",
-                 "dynamo0p3_transformations_test.py", "dynamo0p3_basis_test.py",
+                 "dynamo0p3_basis_test.py",
                  "dynamo0p3_cma_test.py", "dynamo0p3_lma_test.py",
                  "dynamo0p3_multigrid_test.py", "dynamo0p3_quadrature_test.py",
-                 "gocean1p0_test.py", "gocean1p0_transformations_test.py"]
+                 "gocean1p0_test.py"]
 BATCH = 60000
 
 
